@@ -59,7 +59,9 @@ impl<'a> IdentifierScope<'a> {
 enum RuntimeCheck {
     TypeId(usize), // Type ID to check against
     Literal(ast::Literal),
-    Variable(String),
+    /// A pin `&name`: the local the name was bound to when the pattern was analysed — before
+    /// the pattern's own binders are registered, which may rebind the same name (`=[x, &x]`).
+    Variable(usize),
     Path(AccessPath),
 }
 
@@ -205,7 +207,6 @@ pub fn analyze_pattern(
 pub fn generate_pattern_code(
     codegen: &mut InstructionBuilder,
     program: &mut Program,
-    scopes: &[super::scopes::Scope],
     binding_sets: &[BindingSet],
     fail_addr: usize,
 ) -> Result<(), Error> {
@@ -256,13 +257,9 @@ pub fn generate_pattern_code(
                     }
                     codegen.add_instruction(Instruction::Equal(2));
                 }
-                RuntimeCheck::Variable(name) => {
+                RuntimeCheck::Variable(var_index) => {
                     generate_value_access(codegen, &requirement.path);
-                    let (_var_type, var_index) = super::scopes::lookup_variable(scopes, name, &[])
-                        .ok_or_else(|| Error::InternalError {
-                            message: format!("Pin variable '{}' not found in scope", name),
-                        })?;
-                    codegen.add_instruction(Instruction::Load(var_index));
+                    codegen.add_instruction(Instruction::Load(*var_index));
                     codegen.add_instruction(Instruction::Equal(2));
                 }
             }
@@ -440,14 +437,14 @@ fn analyze_match_pattern(
             // `name` must reference a binding already in scope — if it isn't found it's undefined,
             // e.g. a name bound by a *sibling* sub-pattern of the same compound pattern (`=[x, &x]`),
             // which isn't visible yet.
-            let Some((var_type_id, _var_index)) = super::scopes::lookup_variable(scopes, name, &[])
+            let Some((var_type_id, var_index)) = super::scopes::lookup_variable(scopes, name, &[])
             else {
                 return Err(Error::VariableUndefined(name.clone()));
             };
 
             let requirements = vec![Requirement {
                 path,
-                check: RuntimeCheck::Variable(name.clone()),
+                check: RuntimeCheck::Variable(var_index),
             }];
 
             // Narrow the type by intersecting with the pinned variable's type.
